@@ -8,6 +8,8 @@ Line protocol (bytes lowercase hex, `-` empty):
   e <tif 0|1|2> <prMax> <rec> <fileNum> <chk> <rec,rec,..>               spec encoder  -> ok <file> <tells> <size>
   h <file> <op,op,..>          reader model history (ops: r<n> s<n> n k<offset> t) -> replies joined by ','
   a <tif> <prMax> <rec> <fileNum> <chk> <rec,rec,..> <op,op,..>          abstract semantics (k<index>) -> replies
+  best <file> <pr_limit>       best_physical_record_pad_settings -> <pad_modulo>,<pad_non_null>|None <six counts>
+  hb <file> <pr_limit> <ops>   history on the reader of file_read_with_best_physical_record_pad_settings
   strip <file>                 strip_tif model -> ok <out> <stripped> <written> | err <kind>
 -/
 
@@ -68,8 +70,23 @@ def handle (line : String) : String :=
     | _, _ => "bad-op"
   | ["h", file, ops] =>
     match unhex file, (ops.splitOn ",").mapM parseCOp with
-    | some f, some ops => showReplies (TD.C05.run f (some (Rd.new f)) ops)
+    | some f, some ops => showReplies (TD.C05.run Cfg.plain f (some (Rd.new f)) ops)
     | _, _ => "bad-op"
+  | ["best", file, limit] =>
+    match unhex file, limit.toNat? with
+    | some f, some limit =>
+      let counts := joinNats ((scanAll true f limit).map (·.2))
+      match bestPad f limit with
+      | some (m, nn) => s!"{m},{if nn then 1 else 0} {counts}"
+      | none => s!"None {counts}"
+    | _, _ => "bad-op"
+  | ["hb", file, limit, ops] =>
+    match unhex file, limit.toNat?, (ops.splitOn ",").mapM parseCOp with
+    | some f, some limit, some ops =>
+      match bestReaderCfg f limit with
+      | some cfg => showReplies (TD.C05.run cfg f (some (Rd.new f)) ops)
+      | none => "None"
+    | _, _, _ => "bad-op"
   | ["a", t, p, r, fnum, c, recs, ops] =>
     match parseLayout t p r fnum c, parseRecs recs, (ops.splitOn ",").mapM parseOp with
     | some L, some rs, some ops => showReplies (absRun L rs AState.init ops)
